@@ -1,8 +1,9 @@
 /-
   Helper lemmas for C10 (transition oracles replay to the tree): textual round trip, counting,
   continuity ("the sentence of a node is the concatenation of its ordered children's sentences"),
-  a relational form of `agrees`, and the stack-generalised simulations of the in-order and the
-  top-down automaton.  Core only (no Mathlib).
+  a relational form of `agrees`, the stack-generalised simulations of the in-order and the
+  top-down automaton, and for the gap oracle both the lock-step soundness (`gap_sound`) and
+  totality within the fuel (`gap_total`).  Core only (no Mathlib).
 -/
 import TT.Spec.Replay
 import TT.Spec.Transform
@@ -1226,6 +1227,579 @@ theorem gap_sound (t : Tree) (H : GapHyp t) (acts : List Action) (h : gapOracle 
   simp only [List.reverse_nil, List.nil_append] at hacts
   subst hacts
   exact ⟨x, by simp only [replayGap, hrun], hrel.agrees⟩
+
+
+/-! ### gap automaton: the oracle never gets stuck -/
+
+/-- token numbers below the node at `p` -/
+def numsAt (t : Tree) (p : Path) : List Nat := ((t.get? p).map leafNums).getD []
+
+theorem numsAt_of_get? {t : Tree} {p : Path} {s : Tree} (h : get? t p = some s) : numsAt t p = s.leafNums := by
+  simp [numsAt, h]
+
+theorem IR.numsAt {t : Tree} {p : Path} {r : Tree} (h : IR t p r) : r.leafNums.Perm (numsAt t p) := by
+  obtain ⟨s, hs, hrel⟩ := h
+  rw [numsAt_of_get? hs]; exact hrel.2
+
+/-- coverage on the oracle's side: the items and the buffer partition the sentence -/
+theorem SInv.pcov {t : Tree} {s d b : List Path} {C : GCfg} (h : SInv t s d b C) :
+    ((s ++ d ++ b).flatMap (numsAt t)).Perm t.leafNums := by
+  have h1 : All2 (IR t) (s ++ d ++ b) (C.s ++ C.d ++ C.b) := (h.hs.append h.hd).append h.hb
+  exact (All2.flatMap_perm (numsAt t) leafNums (fun _ _ h => h.numsAt) h1).symm.trans h.cov
+
+theorem nodup_flatMap_head {α β} (F : α → List β) {a b : α} {l : List α} {n : β}
+    (h : ((a :: l).flatMap F).Nodup) (hb : b ∈ l) (hna : n ∈ F a) (hnb : n ∈ F b) : False := by
+  simp only [List.flatMap_cons, List.nodup_append] at h
+  exact h.2.2 n hna n (List.mem_flatMap.2 ⟨b, hb, hnb⟩) rfl
+
+theorem idx_eq_of_common {α β} (F : α → List β) : ∀ (ks : List α) (i j : Nat) (a b : α) (n : β),
+    (ks.flatMap F).Nodup → ks[i]? = some a → ks[j]? = some b → n ∈ F a → n ∈ F b → i = j
+  | [], i, _, _, _, _, _, hi, _, _, _ => by simp at hi
+  | k :: ks, 0, 0, _, _, _, _, _, _, _, _ => rfl
+  | k :: ks, 0, j + 1, a, b, n, hn, hi, hj, hna, hnb => by
+    simp only [List.getElem?_cons_zero, Option.some.injEq, List.getElem?_cons_succ] at hi hj
+    subst hi
+    exact (nodup_flatMap_head F hn (List.mem_of_getElem? hj) hna hnb).elim
+  | k :: ks, i + 1, 0, a, b, n, hn, hi, hj, hna, hnb => by
+    simp only [List.getElem?_cons_zero, Option.some.injEq, List.getElem?_cons_succ] at hi hj
+    subst hj
+    exact (nodup_flatMap_head F hn (List.mem_of_getElem? hi) hnb hna).elim
+  | k :: ks, i + 1, j + 1, a, b, n, hn, hi, hj, hna, hnb => by
+    simp only [List.getElem?_cons_succ] at hi hj
+    simp only [List.flatMap_cons, List.nodup_append] at hn
+    rw [idx_eq_of_common F ks i j a b n hn.2.1 hi hj hna hnb]
+
+/-- two nodes sharing a token lie on one root-to-token line -/
+theorem comparable_of_common_token (n : Nat) : ∀ (p q : Path) (t a b : Tree), t.leafNums.Nodup →
+    get? t p = some a → get? t q = some b → n ∈ a.leafNums → n ∈ b.leafNums → p <+: q ∨ q <+: p
+  | [], _, _, _, _, _, _, _, _, _ => Or.inl List.nil_prefix
+  | _ :: _, [], _, _, _, _, _, _, _, _ => Or.inr List.nil_prefix
+  | i :: p, j :: q, .leaf _ _, _, _, _, hp, _, _, _ => by simp [get?] at hp
+  | i :: p, j :: q, .node f ks, a, b, hnd, hp, hq, hna, hnb => by
+    simp only [get?] at hp hq
+    cases hki : ks[i]? with
+    | none => simp [hki] at hp
+    | some k1 =>
+      cases hkj : ks[j]? with
+      | none => simp [hkj] at hq
+      | some k2 =>
+        simp only [hki, hkj] at hp hq
+        rw [leafNums_node] at hnd
+        have h1 := (leafNums_sublist_get? p k1 a hp).subset hna
+        have h2 := (leafNums_sublist_get? q k2 b hq).subset hnb
+        have hij := idx_eq_of_common leafNums ks i j k1 k2 n hnd hki hkj h1 h2
+        subst hij
+        rw [hki] at hkj
+        cases hkj
+        have hk1 : k1.leafNums.Nodup :=
+          (List.sublist_flatten_of_mem (List.mem_map_of_mem (List.mem_of_getElem? hki)) :
+            k1.leafNums.Sublist (ks.flatMap leafNums)).nodup hnd
+        rcases comparable_of_common_token n p q k1 a b hk1 hp hq hna hnb with h | h
+        · exact Or.inl (List.cons_prefix_cons.2 ⟨rfl, h⟩)
+        · exact Or.inr (List.cons_prefix_cons.2 ⟨rfl, h⟩)
+
+theorem leafNums_sublist_of_prefix {t : Tree} {z x : Path} {a b : Tree} (hzx : z <+: x)
+    (hz : get? t z = some a) (hx : get? t x = some b) : b.leafNums.Sublist a.leafNums := by
+  obtain ⟨r, rfl⟩ := hzx
+  rw [get?_append, hz] at hx
+  exact leafNums_sublist_get? r a b hx
+
+theorem exists_longest {α} : ∀ (l : List (List α)), l ≠ [] → ∃ x ∈ l, ∀ y ∈ l, y.length ≤ x.length
+  | [], h => absurd rfl h
+  | [a], _ => ⟨a, by simp, by simp⟩
+  | a :: b :: l, _ => by
+    obtain ⟨x, hx, hmax⟩ := exists_longest (b :: l) (by simp)
+    by_cases h : x.length ≤ a.length
+    · refine ⟨a, by simp, ?_⟩
+      intro y hy
+      rcases List.mem_cons.1 hy with rfl | hy
+      · exact Nat.le_refl _
+      · exact Nat.le_trans (hmax y hy) h
+    · refine ⟨x, List.mem_cons_of_mem _ hx, ?_⟩
+      intro y hy
+      rcases List.mem_cons.1 hy with rfl | hy
+      · omega
+      · exact hmax y hy
+
+/-- with an empty buffer, a deepest item has its sibling among the items -/
+theorem sibling_is_item {t : Tree} (H : GapHyp t) {L : List Path} {C : GCfg} {s d : List Path}
+    (hinv : SInv t s d [] C) (hL : ∀ x, x ∈ L ↔ x ∈ s ++ d)
+    (hcl : ∀ x ∈ L, Climbed t x) {x : Path} (hx : x ∈ L) (hmax : ∀ y ∈ L, y.length ≤ x.length) (hx0 : x ≠ []) :
+    ∃ y ∈ L, y ≠ x ∧ parentP y = parentP x := by
+  have hvalid : ∀ z ∈ s ++ d, ∃ a, get? t z = some a := by
+    intro z hz
+    obtain ⟨r, _, a, ha, _⟩ : ∃ r, r ∈ C.s ++ C.d ∧ IR t z r := by
+      have h2 : ∀ {l1 : List Path} {l2 : List Tree}, All2 (IR t) l1 l2 → ∀ z ∈ l1, ∃ r, r ∈ l2 ∧ IR t z r := by
+        intro l1 l2 h
+        induction h with
+        | nil => intro z hz; simp at hz
+        | cons hab _ ih =>
+          intro z hz
+          rcases List.mem_cons.1 hz with rfl | hz
+          · exact ⟨_, List.mem_cons_self, hab⟩
+          · obtain ⟨r, hr, h⟩ := ih z hz; exact ⟨r, List.mem_cons_of_mem _ hr, h⟩
+      exact h2 (hinv.hs.append hinv.hd) z hz
+    exact ⟨a, ha⟩
+  have hpcov := hinv.pcov
+  rw [List.append_nil] at hpcov
+  have hnd : ((s ++ d).flatMap (numsAt t)).Nodup := hpcov.symm.nodup H.nd
+  rcases List.eq_nil_or_concat x with rfl | ⟨q, i, rfl⟩
+  · exact absurd rfl hx0
+  rw [List.concat_eq_append] at hx hmax hx0 ⊢
+  obtain ⟨ax, hax⟩ := hvalid _ ((hL _).1 hx)
+  obtain ⟨f, ks, hq, hki⟩ := get?_concat_some hax
+  obtain ⟨hlen, _, hkne, _⟩ := node_facts H hq
+  have har : ks.length ≠ 1 := by
+    intro h1
+    exact hcl _ hx q (parentP_concat q i) (by simp [arityAt, hq, kids, h1])
+  have hi := (List.getElem?_eq_some_iff.1 hki).1
+  have hl2 : ks.length = 2 := by omega
+  -- the sibling
+  have hj : 1 - i < ks.length := by omega
+  have hij : 1 - i ≠ i := by omega
+  have hkj : ks[1 - i]? = some ks[1 - i] := List.getElem?_eq_getElem hj
+  have hy : get? t (q ++ [1 - i]) = some ks[1 - i] := by
+    rw [get?_concat, hq]; simp [kids]
+  obtain ⟨n, hn⟩ := List.exists_mem_of_ne_nil _ (hkne _ (List.mem_of_getElem? hkj))
+  have hnt : n ∈ t.leafNums := (leafNums_sublist_get? _ t _ hy).subset hn
+  obtain ⟨z, hz, hnz⟩ := List.mem_flatMap.1 (hpcov.symm.subset hnt)
+  obtain ⟨az, haz⟩ := hvalid z hz
+  rw [numsAt_of_get? haz] at hnz
+  have hzy : z = q ++ [1 - i] := by
+    rcases comparable_of_common_token n z (q ++ [1 - i]) t az _ H.nd haz hy hnz hn with h | h
+    · rcases List.prefix_concat_iff.1 h with h | h
+      · exact h
+      · -- a proper ancestor of the sibling is an ancestor of `x` as well
+        exfalso
+        have hzx : z <+: q ++ [i] := h.trans (List.prefix_append q [i])
+        have hsub := leafNums_sublist_of_prefix hzx haz hax
+        obtain ⟨m, hm⟩ := List.exists_mem_of_ne_nil _ (hkne _ (List.mem_of_getElem? hki))
+        have hmz : m ∈ numsAt t z := by rw [numsAt_of_get? haz]; exact hsub.subset hm
+        have hmx : m ∈ numsAt t (q ++ [i]) := by rw [numsAt_of_get? hax]; exact hm
+        have := eq_of_mem_flatMap_nodup (numsAt t) (s ++ d) hnd z hz _ ((hL _).1 hx) m hmz hmx
+        have hl := h.length_le
+        rw [this] at hl
+        simp at hl
+        omega
+    · have hl := hmax z ((hL z).2 hz)
+      exact (h.eq_of_length_le (by simpa using hl)).symm
+  refine ⟨q ++ [1 - i], (hL _).2 (hzy ▸ hz), ?_, by rw [parentP_concat, parentP_concat]⟩
+  intro h
+  have := List.append_cancel_left h
+  simp at this
+  exact hij this
+
+
+/-! ### the loop invariant for totality -/
+
+/-- every node except the root carries a head mark -/
+def HeadsP (t : Tree) : Prop := ∀ p s, p ≠ [] → get? t p = some s → s.fields.head.isSome = true
+
+theorem HeadsP_of (t : Tree) (hh : ∀ s ∈ t.subtrees, s ≠ t → s.fields.head.isSome) : HeadsP t := by
+  intro p s hp hs
+  refine hh s (mem_subtrees_get? p t s hs) ?_
+  rintro rfl
+  have := height_get?_le p s s hs
+  have : 0 < p.length := List.length_pos_iff.2 hp
+  omega
+
+/-- strictly decreasing along the loop: buffer, number of items, and one unit for "a GAP is still allowed" -/
+def gmeasure (c : GapCfg) : Nat :=
+  4 * c.b.length + 2 * (c.s.length + c.d.length) + (if c.d.length ≤ 1 then 1 else 0)
+
+def terminated (c : GapCfg) : Bool := c.s.isEmpty && c.b.isEmpty && c.d.length == 1
+
+structure TInv (t : Tree) (c : GapCfg) : Prop where
+  sinv : ∃ C, SInv t c.s c.d c.b C
+  climbed : ∀ x ∈ c.d ++ c.s, Climbed t x
+  nosib : ∀ x ∈ c.d.tail ++ c.s, ∀ y ∈ c.d.tail ++ c.s, x ≠ y → parentP x ≠ parentP y
+  phase : (c.d = [] ∧ c.s = []) ∨ (∃ d0, c.d = [d0]) ∨
+    (∃ d0 ds s0 ss, c.d = d0 :: ds ∧ c.s = s0 :: ss ∧ parentP d0 = parentP s0)
+  nt : terminated c = false
+
+/-- what one `gapStep` establishes (before the unary loop) -/
+structure TStep (t : Tree) (c c1 : GapCfg) : Prop where
+  sub : ∀ x ∈ c1.d.tail ++ c1.s, x ∈ c.d ++ c.s
+  nosib : ∀ x ∈ c1.d.tail ++ c1.s, ∀ y ∈ c1.d.tail ++ c1.s, x ≠ y → parentP x ≠ parentP y
+  phase : (∃ x, c1.d = [x]) ∨
+    (∃ d0 ds s0 ss, c1.d = d0 :: ds ∧ c1.s = s0 :: ss ∧ parentP d0 = parentP s0 ∧ Climbed t d0)
+  meas : gmeasure c1 < gmeasure c
+
+theorem parentP_eq_none {q : Path} (h : parentP q = none) : q = [] := by
+  unfold parentP at h
+  split at h
+  · rename_i he; simpa using he
+  · cases h
+
+/-! forward computation of `gapStep` -/
+
+theorem gapStep_reduce_eq {t : Tree} {s0 d0 p : Path} {ss ds b : List Path} {out : List Action} {h h' : Bool}
+    (hpar : parentP d0 = parentP s0) (h1 : headAt t s0 = some h) (h2 : headAt t d0 = some h')
+    (h3 : parentP s0 = some p) :
+    gapStep t ⟨s0 :: ss, d0 :: ds, b, out⟩ = .ok ⟨ds.reverse ++ ss, [p], b, .r h (labelAt t p) :: out⟩ := by
+  simp [gapStep, hpar, h1, h2, h3]
+
+theorem gapStep_gap_eq {t : Tree} {s0 d0 : Path} {ss ds b : List Path} {out : List Action} {i : Nat}
+    (hpar : parentP d0 ≠ parentP s0)
+    (hi : (s0 :: ss).findIdx? (fun n => parentP n == parentP d0) = some i) :
+    gapStep t ⟨s0 :: ss, d0 :: ds, b, out⟩ =
+      .ok ⟨(s0 :: ss).drop i, (d0 :: ds) ++ (s0 :: ss).take i, b, List.replicate i .gap ++ out⟩ := by
+  simp only [gapStep, beq_iff_eq, hpar, if_false, hi]
+
+theorem gapStep_shift_eq1 {t : Tree} {s bs : List Path} {x : Path} {out : List Action} :
+    gapStep t ⟨s, [], x :: bs, out⟩ = .ok ⟨s, [x], bs, .shift :: out⟩ := by
+  cases s <;> simp [gapStep, gapStep.shiftStep]
+
+theorem gapStep_shift_eq2 {t : Tree} {d0 x : Path} {ds bs : List Path} {out : List Action} :
+    gapStep t ⟨[], d0 :: ds, x :: bs, out⟩ = .ok ⟨(d0 :: ds).reverse ++ [], [x], bs, .shift :: out⟩ := by
+  simp [gapStep, gapStep.shiftStep, gapStep.ignore]
+
+theorem gapStep_shift_eq3 {t : Tree} {s0 d0 x : Path} {ss ds bs : List Path} {out : List Action}
+    (hpar : parentP d0 ≠ parentP s0)
+    (hi : (s0 :: ss).findIdx? (fun n => parentP n == parentP d0) = none) :
+    gapStep t ⟨s0 :: ss, d0 :: ds, x :: bs, out⟩ =
+      .ok ⟨(d0 :: ds).reverse ++ (s0 :: ss), [x], bs, .shift :: out⟩ := by
+  simp only [gapStep, beq_iff_eq, hpar, if_false, hi, gapStep.shiftStep]
+
+
+theorem SInv.valid_s {t : Tree} {s0 : Path} {ss d b : List Path} {C : GCfg} (h : SInv t (s0 :: ss) d b C) :
+    ∃ a, get? t s0 = some a := by
+  obtain ⟨_, _, _, ⟨a, ha, _⟩, _⟩ := h.hs.cons_left
+  exact ⟨a, ha⟩
+
+theorem SInv.valid_d {t : Tree} {d0 : Path} {s ds b : List Path} {C : GCfg} (h : SInv t s (d0 :: ds) b C) :
+    ∃ a, get? t d0 = some a := by
+  obtain ⟨_, _, _, ⟨a, ha, _⟩, _⟩ := h.hd.cons_left
+  exact ⟨a, ha⟩
+
+/-- the stack top and the deque top never share a token -/
+theorem SInv.no_overlap {t : Tree} (H : GapHyp t) {s0 d0 : Path} {ss ds b : List Path} {C : GCfg}
+    (h : SInv t (s0 :: ss) (d0 :: ds) b C) {n : Nat} (h1 : n ∈ numsAt t s0) (h2 : n ∈ numsAt t d0) : False := by
+  have hnd := h.pcov.symm.nodup H.nd
+  simp only [List.cons_append] at hnd
+  exact nodup_flatMap_head (numsAt t) hnd (b := d0) (by simp) h1 h2
+
+theorem numsAt_ne_nil {t : Tree} (H : GapHyp t) {p : Path} {a : Tree} (h : get? t p = some a) : numsAt t p ≠ [] := by
+  rw [numsAt_of_get? h]
+  exact noEmpty_leafNums_ne_nil a (noEmpty_get? p t a H.ne h)
+
+theorem headAt_some {t : Tree} (HH : HeadsP t) {p : Path} {a : Tree} (hp : p ≠ []) (h : get? t p = some a) :
+    ∃ hd, headAt t p = some hd := by
+  have := HH p a hp h
+  obtain ⟨hd, hhd⟩ := Option.isSome_iff_exists.1 this
+  exact ⟨hd, by simp [headAt, h, hhd]⟩
+
+/-- REDUCE fires whenever stack top and deque top are siblings -/
+theorem progress_reduce {t : Tree} (H : GapHyp t) (HH : HeadsP t) {s0 d0 : Path} {ss ds b : List Path}
+    {out : List Action} (hinv : TInv t ⟨s0 :: ss, d0 :: ds, b, out⟩) (hpar : parentP d0 = parentP s0) :
+    ∃ c1, gapStep t ⟨s0 :: ss, d0 :: ds, b, out⟩ = .ok c1 ∧ TStep t ⟨s0 :: ss, d0 :: ds, b, out⟩ c1 := by
+  obtain ⟨C, hS⟩ := hinv.sinv
+  obtain ⟨a, ha⟩ := hS.valid_s
+  obtain ⟨a', ha'⟩ := hS.valid_d
+  have hs0 : s0 ≠ [] := by
+    rintro rfl
+    have hd0 : d0 = [] := parentP_eq_none (by rw [hpar]; rfl)
+    subst hd0
+    obtain ⟨n, hn⟩ := List.exists_mem_of_ne_nil _ (numsAt_ne_nil H ha)
+    exact hS.no_overlap H hn hn
+  obtain ⟨p, hp⟩ : ∃ p, parentP s0 = some p := by
+    cases hq : parentP s0 with
+    | none => exact absurd (parentP_eq_none hq) hs0
+    | some p => exact ⟨p, rfl⟩
+  have hd0 : d0 ≠ [] := by
+    rintro rfl
+    rw [hp] at hpar
+    cases hpar
+  obtain ⟨h, hh⟩ := headAt_some HH hs0 ha
+  obtain ⟨h', hh'⟩ := headAt_some HH hd0 ha'
+  refine ⟨_, gapStep_reduce_eq hpar hh hh' hp, ⟨?_, ?_, Or.inl ⟨p, rfl⟩, ?_⟩⟩
+  · intro x hx
+    simp only [List.tail_cons, List.nil_append, List.mem_append, List.mem_reverse] at hx
+    simp only [List.mem_append, List.mem_cons]
+    rcases hx with h | h
+    · exact Or.inl (Or.inr h)
+    · exact Or.inr (Or.inr h)
+  · have hsub : ∀ z, z ∈ ([p] : List Path).tail ++ (ds.reverse ++ ss) → z ∈ (d0 :: ds).tail ++ (s0 :: ss) := by
+      intro z hz
+      simp only [List.tail_cons, List.nil_append, List.mem_append, List.mem_reverse, List.mem_cons] at hz ⊢
+      rcases hz with h | h
+      · exact Or.inl h
+      · exact Or.inr (Or.inr h)
+    intro x hx y hy
+    exact hinv.nosib x (hsub x hx) y (hsub y hy)
+  · simp only [gmeasure, List.length_append, List.length_reverse, List.length_cons, List.length_nil]
+    split <;> omega
+
+
+/-- GAP: the sibling of the deque top is found below the stack top -/
+theorem progress_gap {t : Tree} {s0 d0 : Path} {ss b : List Path} {out : List Action} {i : Nat}
+    (hinv : TInv t ⟨s0 :: ss, [d0], b, out⟩) (hpar : parentP d0 ≠ parentP s0)
+    (hi : (s0 :: ss).findIdx? (fun n => parentP n == parentP d0) = some i) :
+    ∃ c1, gapStep t ⟨s0 :: ss, [d0], b, out⟩ = .ok c1 ∧ TStep t ⟨s0 :: ss, [d0], b, out⟩ c1 := by
+  obtain ⟨hlt, hpi, hmin⟩ := List.findIdx?_eq_some_iff_getElem.1 hi
+  have hi0 : i ≠ 0 := by
+    rintro rfl
+    simp only [List.getElem_cons_zero, beq_iff_eq] at hpi
+    exact hpar hpi.symm
+  have htd : (s0 :: ss).take i ++ (s0 :: ss).drop i = s0 :: ss := List.take_append_drop _ _
+  refine ⟨_, gapStep_gap_eq hpar hi, ⟨?_, ?_, Or.inr ⟨d0, (s0 :: ss).take i, (s0 :: ss)[i], (s0 :: ss).drop (i + 1),
+    rfl, List.drop_eq_getElem_cons hlt, (eq_of_beq hpi).symm, hinv.climbed d0 (by simp)⟩, ?_⟩⟩
+  · intro x hx
+    simp only [List.cons_append, List.nil_append, List.tail_cons] at hx
+    rw [htd] at hx
+    exact List.mem_append_right _ hx
+  · intro x hx y hy
+    simp only [List.cons_append, List.nil_append, List.tail_cons] at hx hy
+    rw [htd] at hx hy
+    exact hinv.nosib x (by simpa using hx) y (by simpa using hy)
+  · simp only [gmeasure, List.length_append, List.length_cons, List.length_nil, List.length_take,
+      List.length_drop] at hlt ⊢
+    have : min i (ss.length + 1) = i := by omega
+    rw [this]
+    split <;> split <;> omega
+
+/-- the contradiction behind totality: buffer empty, more than one item, and nothing to reduce or gap -/
+theorem no_stuck {t : Tree} (H : GapHyp t) {s0 d0 : Path} {ss : List Path} {out : List Action}
+    (hinv : TInv t ⟨s0 :: ss, [d0], [], out⟩) (hpar : parentP d0 ≠ parentP s0)
+    (hi : (s0 :: ss).findIdx? (fun n => parentP n == parentP d0) = none) : False := by
+  obtain ⟨C, hS⟩ := hinv.sinv
+  have hnone : ∀ x ∈ s0 :: ss, parentP x ≠ parentP d0 := by
+    intro x hx h
+    have := List.findIdx?_eq_none_iff.1 hi x hx
+    simp [h] at this
+  obtain ⟨x, hx, hmax⟩ := exists_longest (d0 :: s0 :: ss) (by simp)
+  have hx0 : x ≠ [] := by
+    rintro rfl
+    have h1 := hmax s0 (by simp)
+    have h2 := hmax d0 (by simp)
+    simp only [List.length_nil, Nat.le_zero, List.length_eq_zero_iff] at h1 h2
+    subst h1 h2
+    exact hpar rfl
+  have hL : ∀ z, z ∈ d0 :: s0 :: ss ↔ z ∈ (s0 :: ss) ++ [d0] := by
+    intro z; simp only [List.mem_cons, List.mem_append, List.mem_nil_iff, or_false]
+    constructor
+    · rintro (h | h | h)
+      · exact Or.inr h
+      · exact Or.inl (Or.inl h)
+      · exact Or.inl (Or.inr h)
+    · rintro ((h | h) | h)
+      · exact Or.inr (Or.inl h)
+      · exact Or.inr (Or.inr h)
+      · exact Or.inl h
+  have hcl : ∀ z ∈ d0 :: s0 :: ss, Climbed t z := fun z hz => hinv.climbed z (by simpa using hz)
+  obtain ⟨y, hy, hyx, hpy⟩ := sibling_is_item H hS hL hcl hx hmax hx0
+  have hnosib := hinv.nosib
+  simp only [List.tail_cons, List.nil_append] at hnosib
+  rcases List.mem_cons.1 hx with rfl | hxs
+  · rcases List.mem_cons.1 hy with rfl | hys
+    · exact hyx rfl
+    · exact hnone y hys hpy
+  · rcases List.mem_cons.1 hy with rfl | hys
+    · exact hnone x hxs hpy.symm
+    · exact hnosib y hys x hxs hyx hpy
+
+theorem progress_shift3 {t : Tree} (H : GapHyp t) {s0 d0 : Path} {ss b : List Path} {out : List Action}
+    (hinv : TInv t ⟨s0 :: ss, [d0], b, out⟩) (hpar : parentP d0 ≠ parentP s0)
+    (hi : (s0 :: ss).findIdx? (fun n => parentP n == parentP d0) = none) :
+    ∃ c1, gapStep t ⟨s0 :: ss, [d0], b, out⟩ = .ok c1 ∧ TStep t ⟨s0 :: ss, [d0], b, out⟩ c1 := by
+  cases b with
+  | nil => exact (no_stuck H hinv hpar hi).elim
+  | cons x bs =>
+    have hnone : ∀ z ∈ s0 :: ss, parentP z ≠ parentP d0 := by
+      intro z hz h
+      have := List.findIdx?_eq_none_iff.1 hi z hz
+      simp [h] at this
+    have hnosib := hinv.nosib
+    simp only [List.tail_cons, List.nil_append] at hnosib
+    refine ⟨_, gapStep_shift_eq3 hpar hi, ⟨?_, ?_, Or.inl ⟨x, rfl⟩, ?_⟩⟩
+    · intro z hz
+      simpa using hz
+    · intro a ha b' hb' hab
+      simp only [List.tail_cons, List.nil_append, List.reverse_cons, List.reverse_nil, List.cons_append,
+        List.mem_cons] at ha hb'
+      rcases ha with rfl | ha <;> rcases hb' with rfl | hb'
+      · exact absurd rfl hab
+      · exact fun h => hnone b' (List.mem_cons.2 hb') h.symm
+      · exact hnone a (List.mem_cons.2 ha)
+      · exact hnosib a (List.mem_cons.2 ha) b' (List.mem_cons.2 hb') hab
+    · simp only [gmeasure, List.length_append, List.length_reverse, List.length_cons, List.length_nil]
+      split <;> omega
+
+theorem progress_shift2 {t : Tree} {d0 : Path} {b : List Path} {out : List Action}
+    (hinv : TInv t ⟨[], [d0], b, out⟩) :
+    ∃ c1, gapStep t ⟨[], [d0], b, out⟩ = .ok c1 ∧ TStep t ⟨[], [d0], b, out⟩ c1 := by
+  cases b with
+  | nil => have := hinv.nt; simp [terminated] at this
+  | cons x bs =>
+    refine ⟨_, gapStep_shift_eq2, ⟨?_, ?_, Or.inl ⟨x, rfl⟩, ?_⟩⟩
+    · intro z hz; simpa using hz
+    · intro a ha b' hb' hab
+      simp only [List.tail_cons, List.nil_append, List.reverse_cons, List.reverse_nil, List.append_nil,
+        List.mem_singleton] at ha hb'
+      exact absurd (ha.trans hb'.symm) hab
+    · simp only [gmeasure, List.length_append, List.length_reverse, List.length_cons, List.length_nil]
+      split <;> omega
+
+theorem progress_shift1 {t : Tree} (H : GapHyp t) {b : List Path} {out : List Action}
+    (hinv : TInv t ⟨[], [], b, out⟩) :
+    ∃ c1, gapStep t ⟨[], [], b, out⟩ = .ok c1 ∧ TStep t ⟨[], [], b, out⟩ c1 := by
+  cases b with
+  | nil =>
+    obtain ⟨C, hS⟩ := hinv.sinv
+    have := hS.pcov
+    simp only [List.append_nil, List.flatMap_nil] at this
+    exact absurd this.symm.eq_nil (noEmpty_leafNums_ne_nil t H.ne)
+  | cons x bs =>
+    refine ⟨_, gapStep_shift_eq1, ⟨?_, ?_, Or.inl ⟨x, rfl⟩, ?_⟩⟩
+    · intro z hz; simp at hz
+    · intro a ha; simp at ha
+    · simp [gmeasure]; omega
+
+/-- one `gapStep` always succeeds under the invariant -/
+theorem progress {t : Tree} (H : GapHyp t) (HH : HeadsP t) {c : GapCfg} (hinv : TInv t c) :
+    ∃ c1, gapStep t c = .ok c1 ∧ TStep t c c1 := by
+  obtain ⟨s, d, b, out⟩ := c
+  cases d with
+  | nil =>
+    have hs : s = [] := by
+      rcases hinv.phase with ⟨_, h⟩ | ⟨_, h⟩ | ⟨_, _, _, _, h, _⟩
+      · exact h
+      · cases h
+      · cases h
+    subst hs
+    exact progress_shift1 H hinv
+  | cons d0 ds =>
+    cases s with
+    | nil =>
+      have hds : ds = [] := by
+        rcases hinv.phase with ⟨h, _⟩ | ⟨_, h⟩ | ⟨_, _, _, _, _, h, _⟩
+        · cases h
+        · cases h; rfl
+        · cases h
+      subst hds
+      exact progress_shift2 hinv
+    | cons s0 ss =>
+      by_cases hpar : parentP d0 = parentP s0
+      · exact progress_reduce H HH hinv hpar
+      · have hds : ds = [] := by
+          rcases hinv.phase with ⟨h, _⟩ | ⟨_, h⟩ | ⟨_, _, _, _, h1, h2, h3⟩
+          · cases h
+          · cases h; rfl
+          · cases h1; cases h2; exact absurd h3 hpar
+        subst hds
+        cases hi : (s0 :: ss).findIdx? (fun n => parentP n == parentP d0) with
+        | none => exact progress_shift3 H hinv hpar hi
+        | some i => exact progress_gap hinv hpar hi
+
+
+/-- one full iteration (step + unary loop): the measure drops and the invariant holds again unless the
+    loop's termination test succeeds -/
+theorem gap_iter {t : Tree} (H : GapHyp t) (HH : HeadsP t) {c : GapCfg} (hinv : TInv t c) :
+    ∃ c1, gapStep t c = .ok c1 ∧ gmeasure (unaryClimb t (t.size + 1) c1) < gmeasure c ∧
+      (terminated (unaryClimb t (t.size + 1) c1) = true ∨ TInv t (unaryClimb t (t.size + 1) c1)) := by
+  obtain ⟨c1, hstep, hT⟩ := progress H HH hinv
+  obtain ⟨C, hS⟩ := hinv.sinv
+  obtain ⟨_, C1, _, _, hS1⟩ := gapStep_sound H hstep hS
+  obtain ⟨_, C2, _, _, hS2⟩ := unaryClimb_sound H (t.size + 1) c1 C1 hS1
+  obtain ⟨hs2, hb2, _, hd2⟩ := unaryClimb_spec t (t.size + 1) c1
+  -- the deque of `c1` is never empty
+  obtain ⟨d0, ds, hd1⟩ : ∃ d0 ds, c1.d = d0 :: ds := by
+    rcases hT.phase with ⟨x, h⟩ | ⟨d0, ds, _, _, h, _⟩
+    · exact ⟨x, [], h⟩
+    · exact ⟨d0, ds, h⟩
+  obtain ⟨d0', hd0', _, hcl, hnoop⟩ := hd2 d0 ds hd1
+  have hvalid : ∃ a, get? t d0 = some a := by
+    rw [hd1] at hS1; exact hS1.valid_d
+  obtain ⟨a, ha⟩ := hvalid
+  have hclimbed : Climbed t d0' := hcl (by have := length_le_size_of_get? t a d0 ha; omega)
+  refine ⟨c1, hstep, ?_, ?_⟩
+  · have : gmeasure (unaryClimb t (t.size + 1) c1) = gmeasure c1 := by
+      simp only [gmeasure, hs2, hb2, hd0', hd1, List.length_cons]
+    rw [this]; exact hT.meas
+  · cases hterm : terminated (unaryClimb t (t.size + 1) c1) with
+    | true => exact Or.inl rfl
+    | false =>
+      refine Or.inr ⟨⟨C2, hS2⟩, ?_, ?_, ?_, hterm⟩
+      · intro x hx
+        rw [hd0', hs2] at hx
+        rcases List.mem_append.1 hx with hx | hx
+        · rcases List.mem_cons.1 hx with rfl | hx
+          · exact hclimbed
+          · exact hinv.climbed x (hT.sub x (by rw [hd1]; simp [hx]))
+        · exact hinv.climbed x (hT.sub x (by simp [hx]))
+      · rw [hd0', hs2]
+        have := hT.nosib
+        rw [hd1] at this
+        exact this
+      · rcases hT.phase with ⟨x, h⟩ | ⟨e0, es, s0, ss, h1, h2, h3, h4⟩
+        · rw [hd1] at h
+          cases h
+          exact Or.inr (Or.inl ⟨d0', hd0'⟩)
+        · rw [hd1] at h1
+          cases h1
+          rw [hnoop h4]
+          exact Or.inr (Or.inr ⟨d0, ds, s0, ss, hd1, h2, h3⟩)
+
+theorem gmeasure_pos (c : GapCfg) : 0 < gmeasure c := by
+  unfold gmeasure
+  split <;> omega
+
+theorem gapLoop_total {t : Tree} (H : GapHyp t) (HH : HeadsP t) : ∀ (fuel : Nat) (c : GapCfg), TInv t c →
+    gmeasure c ≤ fuel → ∃ acts, gapLoop t fuel c = .ok acts
+  | 0, c, _, hm => by have := gmeasure_pos c; omega
+  | fuel + 1, c, hinv, hm => by
+    obtain ⟨c1, hstep, hlt, hcase⟩ := gap_iter H HH hinv
+    unfold gapLoop
+    rw [hstep]
+    simp only
+    have hterm : ((unaryClimb t (t.size + 1) c1).s.isEmpty && (unaryClimb t (t.size + 1) c1).b.isEmpty &&
+        (unaryClimb t (t.size + 1) c1).d.length == 1) = terminated (unaryClimb t (t.size + 1) c1) := rfl
+    rw [hterm]
+    cases ht : terminated (unaryClimb t (t.size + 1) c1) with
+    | true => exact ⟨(unaryClimb t (t.size + 1) c1).out.reverse, by simp⟩
+    | false =>
+      rcases hcase with h | h
+      · rw [ht] at h; cases h
+      · obtain ⟨acts, hacts⟩ := gapLoop_total H HH fuel _ h (by omega)
+        exact ⟨acts, by simpa using hacts⟩
+
+mutual
+theorem leaves_length_le_size : (t : Tree) → (leaves t).length ≤ size t
+  | .leaf _ _ => by simp [leaves, size]
+  | .node _ ks => by
+    have := leavesL_length_le_sizeL ks
+    show (leavesL ks).length ≤ 1 + sizeL ks
+    omega
+theorem leavesL_length_le_sizeL : (ts : List Tree) → (leavesL ts).length ≤ sizeL ts
+  | [] => by simp [leavesL, sizeL]
+  | t :: ts => by
+    have h1 := leaves_length_le_size t
+    have h2 := leavesL_length_le_sizeL ts
+    show (leaves t ++ leavesL ts).length ≤ size t + sizeL ts
+    rw [List.length_append]; omega
+end
+
+theorem terminalPaths_length_le (t : Tree) : (terminalPaths t).length ≤ size t := by
+  have h1 := (init_all2 t).length_eq
+  rw [h1, tokenLeaves_eq, List.length_map]
+  unfold terminals
+  rw [sortBy_length]
+  exact leaves_length_le_size t
+
+/-- totality: on a well-formed, at most binary, head-marked tree the oracle returns a sequence within its fuel -/
+theorem gap_total (t : Tree) (H : GapHyp t) (HH : HeadsP t) : ∃ acts, gapOracle t = .ok acts := by
+  unfold gapOracle
+  refine gapLoop_total H HH _ _ ⟨⟨{ s := [], d := [], b := tokenLeaves t },
+    ⟨.nil, .nil, init_all2 t, by simpa using init_cov t⟩⟩, ?_, ?_, Or.inl ⟨rfl, rfl⟩, ?_⟩ ?_
+  · intro x hx; simp at hx
+  · intro x hx; simp at hx
+  · simp [terminated]
+  · have h1 := terminalPaths_length_le t
+    have h2 : t.size ≤ t.size * t.size := Nat.le_mul_self _
+    simp only [gmeasure, List.length_nil]
+    have h3 : 4 * t.size * t.size = 4 * (t.size * t.size) := Nat.mul_assoc _ _ _
+    rw [h3]
+    split <;> omega
 
 
 end TT.Lemmas.Trans
